@@ -29,7 +29,7 @@ VARIABLES l, S, mem, cfg, skip, res, mon, mres
 
 vars == <<l, S, mem, cfg, skip, res, mon, mres>>
 
-EmptyCfg == [qcap |-> 1, acap |-> 6, ucap |-> 6, mutex |-> FALSE, groups |-> <<>>, cmds |-> <<>>, sid |-> -1]
+EmptyCfg == [qcap |-> 1, acap |-> 6, ucap |-> 6, mutex |-> FALSE, groups |-> <<>>, cmds |-> <<>>, sid |-> -1, fill |-> 0]
 
 Init == /\ l = 1
         /\ cfg = EmptyCfg
@@ -63,8 +63,9 @@ MemAgrees(ev, mem0, mem1, cf) ==
       touched == NestedSetmem(ev)
   IN \A c \in 0..(Len(cf.cmds) - 1) : \A v \in 0..(Len(cf.cmds[c + 1].vars) - 1) :
         LET lm == LastMem(mev, c, v) IN
-        IF lm.found THEN mem1[c + 1][v + 1] = lm.val
-        ELSE <<c, v>> \in touched \/ mem1[c + 1][v + 1] = mem0[c + 1][v + 1]
+        IF <<c, v>> \in touched THEN TRUE      \* rewritten by the harness inside a handler: order relative to library stores is not logged
+        ELSE IF lm.found THEN mem1[c + 1][v + 1] = lm.val
+        ELSE mem1[c + 1][v + 1] = mem0[c + 1][v + 1]
 
 \* n consecutive cat_service calls fed from one answer list (compact records have n > 1)
 RECURSIVE ServiceN(_, _, _, _, _, _, _)
@@ -85,7 +86,7 @@ StepCfg(rec) ==
   /\ cfg' = rec
   /\ S' = InitS(rec)
   /\ mem' = InitMem(rec)
-  /\ skip' = ~ImplOn
+  /\ skip' = (~ImplOn \/ ("fill" \in DOMAIN rec /\ rec.fill # 0))
   /\ res' = [res EXCEPT !.scenarios = @ + 1]
 
 StepSvc(rec, n) ==
